@@ -14,6 +14,17 @@ def load_findings():
     return open_, d.get("fixed", [])
 
 
+def find_known(known, prop, key):
+    import fnmatch
+    kf = known.get((prop, key))
+    if kf is not None:
+        return kf
+    for (p, pat), f in known.items():
+        if p == prop and ("*" in pat or "?" in pat) and fnmatch.fnmatchcase(key, pat):
+            return f
+    return None
+
+
 def main(argv=None):
     argv = list(sys.argv[1:] if argv is None else argv)
     if not argv:
@@ -126,7 +137,7 @@ def finish(mod, prop, tier, seed, results, t0, partial=False):
                                         K=r.get("K"), mode=r.get("mode"), solver_s=x.get("t_s")))
             elif x["verdict"] == "violated":
                 discharged += 1
-                kf = known.get((prop, key))
+                kf = find_known(known, prop, key)
                 exc = x.get("excused")
                 if kf is not None and exc in (None, "holds"):
                     known_hit.append((key, kf))
@@ -141,8 +152,11 @@ def finish(mod, prop, tier, seed, results, t0, partial=False):
                                     trace=x.get("trace"), replay=x.get("replay"), known=kf is not None))
             else:
                 inconclusive.append("%s: %s %s" % (key, x["verdict"], x.get("reason", "")))
+    grouped = {}
     for key, kf in known_hit:
-        print("KNOWN-FINDING: property=%s %s [%s]" % (prop, kf["what"], key))
+        grouped.setdefault(kf["key"], (kf, []))[1].append(key)
+    for pat, (kf, keys) in grouped.items():
+        print("KNOWN-FINDING: property=%s %s [listed as %s; hit by %s]" % (prop, kf["what"], pat, ", ".join(sorted(keys))))
     for key, path in violations:
         print("VIOLATION property=%s replay=%s  (%s)" % (prop, path, key))
     for m in inconclusive:
